@@ -195,6 +195,7 @@ class Frame():
         :rtype: pd.DataFrame
         """
         df = pd.DataFrame.from_dict({beid: big_edge.gt for beid, big_edge in self.big_edges.items()}.items()).rename(columns={0: 'id', 1: 'gt'})
+        df = df.reindex(columns=['id', 'gt'])
         df['stress'] = [big_edge.tension for big_edge in self.big_edges.values()]
         if not with_border:
             # Only return results that don't belong the edges in the border
@@ -206,6 +207,7 @@ class Frame():
     def get_gt_tensions(self, with_border: bool = False) -> pd.DataFrame:
         df = pd.DataFrame.from_dict({beid: big_edge.gt for beid, big_edge in self.big_edges.items()}.items()).rename(columns={0: 'id', 
                                                                                                                                 1: 'gt'})
+        df = df.reindex(columns=['id', 'gt'])
         if not with_border:
             df = df.loc[~df.id.isin(self.get_external_edges_ids())]
         return df
